@@ -6,6 +6,7 @@ import KVerif.Drv.C19
 import KVerif.Drv.C05
 import KVerif.Drv.Kan
 import KVerif.Drv.C02
+import KVerif.Drv.C14
 open KVerif.Drv
 
 /-- kvdrv <prop>: one case line in, one `M <model> ## S <spec>` line out. -/
@@ -19,6 +20,8 @@ def dispatch (prop : String) : Option (String → String × String) :=
   | "C05o" => some C05.runOracle
   | "KALL" => some (Kan.run "KAN")
   | "C02" => some C02.run
+  | "C14" => some C14.run
+  | "C14o" => some C14.runOracle
   | "LALL" => some (Lay.run "LAY")
   | _ => none
 
